@@ -359,6 +359,15 @@ def _genome_order(ctx):
         r2_sort_keys(ctx)
 
 
+
+def _round7_order_and_shortcuts(ctx):
+    from ..idioms import check_endpoint_samples
+    from .round7 import compatible_means_same_order, code_lookup_tables
+    mods = [m for m in ctx.index.modules if m.startswith("bionumpy.genomic_data") or m.startswith("bionumpy.arithmetics") or m.startswith("bionumpy.streams") or m == "bionumpy.io.indexed_fasta"]
+    compatible_means_same_order(ctx, "C10-R11")
+    check_endpoint_samples(ctx, mods, "C10-R11")
+    code_lookup_tables(ctx, mods, "C10-R11")
+
 RULES = [
     ("C10-R1", r1_lockstep),
     ("C10-R2", r2_global_taint),
@@ -372,4 +381,5 @@ RULES = [
     ("C10-T2", _small_edits),
     ("C10-R9", _every_chromosome_visited),
     ("C10-R10", _genome_order),
+    ("C10-R11", _round7_order_and_shortcuts),
 ]
